@@ -1,6 +1,7 @@
 import PoolProofs.C15LemmasInst
 import PoolProofs.C15LemmasStr
 import PoolProofs.C15LemmasB58
+import PoolProofs.C10
 /-! # C15 — sidecar ticket encodings round-trip and reject damaged strings
 
 Theorems about the model of sidecar/tlv.go and sidecar/codec.go (`Pool.Dec`).  SHA-256 is an arbitrary
@@ -293,10 +294,36 @@ theorem C15_string_roundtrip (H : Bytes → Bytes) (hH : ∀ x, 4 ≤ (H x).leng
     · rw [(payload_split 0 ser c hc).1, (payload_split 0 ser c hc).2]; rfl
     · rw [(payload_split 0 ser c hc).1]; exact hdes
 
+/-! ## embedded in a stored bid
+
+The trader database model of property C10 (`Pool.C10`, tag store) treats the ticket of a bid as the byte
+blob `SerializeTicket` produced and proves that the whole order bucket reads back as written
+(`Pool.C10.order_roundtrip`).  Composed with `C15_ticket_roundtrip`: -/
+
+/-- **embedded_in_bid_roundtrip**: store any well-formed bid carrying the serialisation of a well-formed
+ticket (clientdb `SubmitOrder` / `updateOrder`: keys `order`, `order-min-units-match`, `order-tlv`,
+`order-tier`), load it (`GetOrder`): the bid comes back with exactly that blob, and the blob
+deserialises to the same ticket. -/
+theorem C15_embedded_in_bid_roundtrip (cfg : Cfg) (hm : 1000 ≤ cfg.maxAlloc) (t : Ticket) (h : t.wf)
+    (k : Pool.C10.Kit) (tier scb : Nat) (u z : Bool)
+    (hk : k.WF) (ht : Pool.C10.WFu32 tier) (hs : Pool.C10.WFu64 scb) :
+    ∃ blob, serializeTicket t = .ok blob ∧
+      Pool.C10.loadOrder k.nonce (Pool.C10.storeOrder (.bid k tier scb (some blob) u z))
+        = .ok (.bid k tier scb (some blob) u z) [] ∧
+      deserializeTicket cfg blob = .ok t := by
+  obtain ⟨hser, hdes⟩ := ticket_roundtrip cfg hm t h
+  refine ⟨_, hser, ?_, hdes⟩
+  have hlen := ticket_enc_length cfg t h hm
+  have hwf : (Pool.C10.Order.bid k tier scb (some (encAligned (ticketRecs cfg) (ticketVals t))) u z).WF := by
+    refine ⟨hk, ht, hs, ?_⟩
+    show (encAligned (ticketRecs cfg) (ticketVals t)).length < 2 ^ 48
+    omega
+  exact Pool.C10.order_roundtrip _ hwf
+
 /-! ## the property in full -/
 
 /-- C15's round-trip and rejection clauses for the binary and the string form (the bid embedding is
-`C15_embedded_in_bid_roundtrip` below). -/
+`C15_embedded_in_bid_roundtrip` above). -/
 def C15_full_statement : Prop :=
   (∀ (cfg : Cfg) t, Ticket.wf t → 1000 ≤ cfg.maxAlloc → ∃ b, serializeTicket t = .ok b ∧ deserializeTicket cfg b = .ok t) ∧
   (∀ m b, b.length ≤ m → b58Decode m (b58Encode b) = .ok b) ∧
